@@ -18,7 +18,7 @@ From KdV Require Import Fmt.Codec Fmt.CodecProofs Fmt.Rle Fmt.RleProofs
      Fmt.PfnModel Fmt.BitmapSpec Fmt.ImageSpec Fmt.DiskdumpModel Fmt.DiskdumpSpec Fmt.DiskdumpProofs
      Fmt.S390Model Fmt.S390Spec Fmt.S390Proofs Fmt.LkcdModel Fmt.LkcdSpec Fmt.LkcdProofs Fmt.ReadProofs
      Fmt.ElfModel Fmt.ElfSpec Fmt.ElfProofs Fmt.ElfRoundtrip Fmt.ElfOpenProofs
-     Fmt.SadumpModel Fmt.SadumpSpec Fmt.SadumpProofs.
+     Fmt.SadumpModel Fmt.SadumpSpec Fmt.SadumpProofs Fmt.SadumpOpenProofs.
 Import ListNotations.
 Local Open Scope N_scope.
 
@@ -202,6 +202,23 @@ Theorem C01_sadump_page_path_partial : forall rd img nbytes exts max_pfn bs ptr 
     spec_read_page img SADUMP_PAGE_SIZE max_pfn z pfn.
 Proof. exact sadump_page_path. Qed.
 Print Assumptions C01_sadump_page_path_partial.
+
+(** single-partition dumps, end to end: block sizes 2^8..2^20 (found by
+    [verify_magic_number] from the magic-number sequence), header versions 0
+    and 1, any number of CPUs in long or legacy mode (x86_64 / ia32 pointer
+    size), any bitmap sizes and exclusion pattern: geometry and every page.
+    [_partial]: disk sets and media backups are covered by the page-path
+    theorem above and the tie, not by an open-path theorem. *)
+Theorem C01_sadump_single_roundtrip_partial : forall l img,
+  sd_wf l img ->
+  exists st, sd_open (read_files (encode_sadump l img)) 1 = Ok st /\
+    sd_ptr_size st = (if existsb (fun b => b) (sl_lma l) then 8 else 4) /\
+    sd_max_pfn st = sl_max_mapnr l /\ sd_block_size st = sl_block_size l /\
+    forall z pfn,
+      sd_read_page (read_files (encode_sadump l img)) st z pfn =
+      spec_read_page img SADUMP_PAGE_SIZE (sl_max_mapnr l) z pfn.
+Proof. exact sadump_single_roundtrip. Qed.
+Print Assumptions C01_sadump_single_roundtrip_partial.
 
 Theorem C01_sadump_disk_set_extents : forall rd (chunks : list (extent * bytes)) pos,
   Forall (fun ec => ex_len (fst ec) = len (snd ec) /\ (len (snd ec)) mod 4096 = 0 /\
